@@ -99,7 +99,10 @@ def strategy(tier):
         other_fds=st.lists(st.tuples(st.integers(0, 4),
                                      st.sampled_from(["/dev/null", "pipe:[77]",
                                                       "socket:[999999]",
-                                                      "anon_inode:[eventpoll]"])),
+                                                      "anon_inode:[eventpoll]",
+                                                      # not sockets, though characters 8.. spell
+                                                      # the inode number of a generated socket
+                                                      "/sim/xx/5001]", "/sim/xx/5002]"])),
                            max_size=4),
         odd_unix_lines=st.lists(st.sampled_from([b"0000000000000000:", b"garbage",
                                                  b"x"]), max_size=2),
@@ -110,6 +113,8 @@ def strategy(tier):
         # the kernel's IPv6 socket tables are what they are all the same
         no_ipv6_bind=st.sampled_from([False, False, True]),
         other_first=st.booleans(),
+        # kernel built / booted without IPv6: /proc/net/tcp6 and udp6 do not exist
+        no_v6_tables=st.sampled_from([False, False, False, True]),
         # a non-socket descriptor closes just before OS access number k of the
         # second system-wide call (between the listing of the fd directory and
         # the readlink of that entry, among others)
@@ -184,6 +189,8 @@ def build(case):
     inet = []
     seen = set()
     for s in case["inet"]:
+        if case.get("no_v6_tables") and s["fam"] == 6:
+            continue
         key = (s["proto"], s["fam"], s["l4"] if s["fam"] == 4 else s["l6"], s["lport"],
                s["r4"] if s["fam"] == 4 else s["r6"], s["rport"])
         if key in seen:
@@ -199,9 +206,10 @@ def build(case):
         inode += 1
         unix.append(dict(s, inode=inode))
     k.set_file("/proc/net/tcp", render_inet(inet, 4, "tcp"))
-    k.set_file("/proc/net/tcp6", render_inet(inet, 6, "tcp"))
     k.set_file("/proc/net/udp", render_inet(inet, 4, "udp"))
-    k.set_file("/proc/net/udp6", render_inet(inet, 6, "udp"))
+    if not case.get("no_v6_tables"):
+        k.set_file("/proc/net/tcp6", render_inet(inet, 6, "tcp"))
+        k.set_file("/proc/net/udp6", render_inet(inet, 6, "udp"))
     k.set_file("/proc/net/unix", render_unix(unix, case["odd_unix_lines"]))
     tables = {pid: {} for pid in PIDS}
     others = []
@@ -403,6 +411,8 @@ def run_case(case):
             labels.add("unix-abstract")
     if case["odd_unix_lines"]:
         labels.add("odd-unix-line")
+    if case.get("no_v6_tables"):
+        labels.add("no-ipv6-tables")
     if case.get("no_ipv6_bind") and any(s_["fam"] == 6 for s_ in inet):
         labels.add("ipv6-rows-on-host-without-bindable-::1")
     labels.add("kind=" + kind)
